@@ -22,7 +22,9 @@ MC = {
                       GTChoices="{FALSE}", ScnLen=0),
                  dict(Keys='{"k1", "k2"}', G=2, MaxH=2, MaxBad=1, Edits=ALL_EDITS, PoolOps="TRUE",
                       GTChoices="{FALSE}", ScnLen=0),
-                 dict(Keys='{"k1", "k2"}', G=1, MaxH=3, MaxBad=1, Edits=FEW_EDITS, PoolOps="TRUE",
+                 dict(Keys='{"k1", "k2"}', G=1, MaxH=2, MaxBad=1, Edits=FEW_EDITS, PoolOps="TRUE",
+                      GTChoices="{FALSE}", ScnLen=0),
+                 dict(Keys='{"k1", "k2"}', G=1, MaxH=4, MaxBad=1, Edits=FEW_EDITS, PoolOps="FALSE",
                       GTChoices="{FALSE}", ScnLen=0)],
 }
 SIM = {
